@@ -31,6 +31,8 @@ func init() {
 	conc(&quick, 2, 1, 0, 2, 0)
 	conc(&quick, 2, 0, 0, 3, 0) // a handler behind the idle handler closes the channel while it handles the active event
 	conc(&quick, 2, 1, 0, 3, 0)
+	conc(&quick, 2, 0, 0, 0, 3) // the event handler closes the channel and then panics
+	conc(&quick, 2, 1, 0, 0, 3)
 	conc(&quick, 2, 1, 1, 0, 2) // the first write passes the idle handler and is refused further down
 	conc(&thorough, 2, 1, 1, 1, 2)
 	conc(&thorough, 3, 0, 1, 1, 1)
@@ -40,7 +42,7 @@ func init() {
 	conc(&thorough, 4, 0, 1, 0, 1)
 	Specs["C20"] = &Spec{
 		Jobs: jobsBy(quick, thorough), Labels: labelFilter("c20-"),
-		MustReach: []string{"c20-idle-event", "c20-active-done", "c20-inactive-done", "c20-panic-routed", "c20-refused-write"},
+		MustReach: []string{"c20-idle-event", "c20-active-done", "c20-inactive-done", "c20-panic-routed", "c20-refused-write", "c20-close-then-panic"},
 		Bounds: map[string]string{
 			"quick":    "timing: 4 event programs of up to 3 steps per handler kind on the fully symbolic clock; concurrency: one traffic event, up to 3 timer expirations, inactive event and panicking event handler variants, all interleavings",
 			"thorough": "timing: 5 more programs of up to 4 steps; concurrency: two traffic events, 4 expirations",
